@@ -101,6 +101,14 @@ pub const LEAVES: &[Leaf] = &[
     leaf("fredir_arg /nonexistent_dir_c18/o"),
     leaf("fredir_arg out4.txt"),
     leaf("fredir_bad | simcat"),
+    leaf("./nonexistent_cmd_c18"),
+    leaf("V=x ./nonexistent_cmd_c18 arg"),
+    leaf("./noexec.txt"),
+    leaf("V=x W=y ./noexec.txt"),
+    leaf("fslash"),
+    leaf("V=x fslash"),
+    leaf("x=$(./nonexistent_cmd_c18)"),
+    leaf("./nonexistent_cmd_c18 | simcat"),
     leaf("xtrue"),
     leaf("xexit 3"),
     leaf("V=x xexit 2"),
@@ -126,6 +134,7 @@ freturn_nested() { for a in 1; do while true; do if true; then return 3; fi; don
 fcat() { simcat; }\n\
 flocal() { local a=1 b=2; nosuchcmd_c18; }\n\
 fdeep() { if [ $1 -gt 0 ]; then V=$1 fdeep $(($1-1)); else return 5; fi; }\n\
+fslash() { ./nonexistent_cmd_c18; ./noexec.txt; }\n\
 fredir_bad() { echo x; } > /nonexistent_dir_c18/out\n\
 fredir_in() { simcat; } < missing_file\n\
 fredir_ok() { echo x; } > out3.txt\n\
@@ -298,7 +307,11 @@ fn abort_violation(r: &RunResult, what: &str, script: &str, has_coproc: bool) ->
 
 pub fn judge(case: &Case) -> Verdict {
     let script = render(case);
-    let files = vec![("bad.sh".to_string(), "if true; then\n".to_string()), ("good.sh".to_string(), "gv=1\n".to_string())];
+    let files = vec![
+        ("bad.sh".to_string(), "if true; then\n".to_string()),
+        ("good.sh".to_string(), "gv=1\n".to_string()),
+        ("noexec.txt".to_string(), "not a program\n".to_string()),
+    ];
     let has_coproc = case.seq.iter().any(|i| LEAVES[*i % LEAVES.len()].coproc);
     let mut v = Verdict::default();
     v.class_name = case.class.clone();
